@@ -263,6 +263,7 @@ static std::string show(const Op& op)
 }
 
 static long g_steps = 0;
+static bool g_ub = false;
 
 template<typename MakeReal, typename MakeModel, typename Step>
 static bool run_histories(const char* cname, uint64_t seed, int histories, int len, const std::vector<std::string>& names, MakeReal mkreal, MakeModel mkmodel, Step step)
@@ -285,8 +286,16 @@ static bool run_histories(const char* cname, uint64_t seed, int histories, int l
             log.push_back(show(op));
             if (!step(*real, *model, op, r, m)) { fprintf(stderr, "cosim: unknown op %s for %s\n", op.name.c_str(), cname); return false; }
             g_steps++;
-            if (r != m || !g_fail.empty()) {
-                fprintf(stderr, "COSIM-MISMATCH %s cap=%zu ttl=%ld history %d step %d%s%s\n", cname, cap, (long)ttl, h, i, g_fail.empty() ? "" : " model-precondition: ", g_fail.c_str());
+            if (!g_fail.empty()) {
+                // the history drives the library into undefined behaviour (a std:: precondition is violated in
+                // the extracted code, which mirrors the real code): not an extraction defect; stop this container
+                fprintf(stderr, "COSIM-UB %s cap=%zu ttl=%ld history %d step %d: %s\n", cname, cap, (long)ttl, h, i, g_fail.c_str());
+                for (auto& l : log) fprintf(stderr, "   %s\n", l.c_str());
+                g_ub = true;
+                return true;
+            }
+            if (r != m) {
+                fprintf(stderr, "COSIM-MISMATCH %s cap=%zu ttl=%ld history %d step %d\n", cname, cap, (long)ttl, h, i);
                 for (auto& l : log) fprintf(stderr, "   %s\n", l.c_str());
                 fprintf(stderr, "   real : "); for (auto x : r) fprintf(stderr, "%ld ", (long)x); fprintf(stderr, "\n   model: "); for (auto x : m) fprintf(stderr, "%ld ", (long)x); fprintf(stderr, "\n");
                 return false;
@@ -331,7 +340,7 @@ static int cosim(uint64_t seed, int histories, int len, const char* only)
         [](size_t, int64_t ttl) { return std::make_unique<cap::ut_set<K>>(ms{ttl}); },
         [](size_t, int64_t ttl) { auto m = std::make_unique<::ut_set>(); ut_set__ctor(m.get(), ttl); return m; }, step_utset);
     printf("cosim: %s, %ld calls compared (real library vs extracted C over native models)\n", ok ? "AGREE" : "MISMATCH", g_steps);
-    return ok ? 0 : 2;
+    return !ok ? 2 : g_ub ? 3 : 0;
 }
 
 int replay_main(int argc, char** argv);
